@@ -275,6 +275,7 @@ class Executor:
         self.origin = {}        # z3 variable name -> key it was created for
         self.models = []        # (regex, handler)
         self.inline = []        # regexes of callee names to inline
+        self.redirect = []      # (regex on callee, MirFn): trait call statically dispatched to this body
         self.type_hooks = []    # (regex on type string, fn(ex, state, ty, key) -> Val)
         self.pure = []          # regexes of callees that are deterministic observers even with &mut args
         self.impure = []        # regexes of callees that return a fresh value on every call
@@ -1040,6 +1041,15 @@ class Executor:
             outcome = self.builtin(st, cname, args, dest_ty)
             handled = outcome is not NotImplemented
         if not handled:
+            for rx, tgt in self.redirect:
+                # static dispatch of a trait call to a known implementation (generic MIR, concrete receiver)
+                if re.search(rx, cname) and ret_bb is not None and len(stack) < self.max_depth:
+                    self.stats["inlined"] += 1
+                    nfid = self.new_frame(st)
+                    for (local, ty), a in zip(tgt.args, args):
+                        st.frames[nfid][local] = a
+                    self.exec_block(tgt, st, nfid, "bb0", stack + [(fn, fid, dest, ret_bb)], None)
+                    return None
             for rx in self.inline:
                 if re.search(rx, cname):
                     target = self.lookup_fn(cname)
